@@ -2,6 +2,7 @@ import Revm.Proofs.EvmStep2Mem
 import Revm.Proofs.EvmStep2Copy
 import Revm.Proofs.EvmStep2Halt
 import Revm.Proofs.EvmStep2Host
+import Revm.Proofs.EvmStep2State
 /-! C01, continued — `step_*_agrees` for the instruction families that `Props/C01.lean` leaves open: memory, copy,
 frame-ending, KECCAK256 / LOG, state-touching host instructions and the CALL / CREATE family.
 
@@ -30,7 +31,7 @@ theorem step_mload_agrees (s : IState) (hcode : s.code[s.pc]? = some 0x51) (hwf 
 /-- a state satisfying the hypotheses: `PUSH1 0 MLOAD` at the MLOAD -/
 example : ∃ s : IState, WFM s ∧ s.code[s.pc]? = some 0x51 :=
   ⟨{ IState.init [0x60, 0, 0x51] [] 100000 false 17 0 0 0 {} with pc := 2, stack := [0] },
-   ⟨⟨by decide, by decide, by decide⟩, Proofs.Memory.new_wf, by decide, by decide, by decide, by decide, by decide⟩,
+   ⟨⟨by decide, by decide, by decide⟩, Proofs.Memory.new_wf, by decide, by decide, by decide, by decide, by decide, by decide⟩,
    by decide⟩
 
 /-- MSTORE: the 32 big-endian bytes of the value -/
@@ -133,5 +134,69 @@ example : viewHost (logRule 1 { IState.init [0xa1] [] 5000 false 17 0xcc 0 0 {} 
 example : logRule 1 { IState.init [0xa1] [] 5000 true 17 0xcc 0 0 {} with stack := [7, 1, 31] } =
     .halt .StateChangeDuringStaticCall [] (adv { IState.init [0xa1] [] 5000 true 17 0xcc 0 0 {} with stack := [7, 1, 31] }) :=
   rfl
+
+/-! ## (e) state-touching host instructions: the gas is the `Spec/GasCalc.lean` formula of the host's answer
+
+`f : Fork` is the named hardfork of the state (`s.spec = f.id`, the `SpecId` discriminant). What the journal-backed host
+answers (cold flags, original / present / new values) is the abstract state's content by `Props.C01.host_*_agrees`. -/
+
+open Revm.Spec.GasCalc (Fork)
+
+/-- BALANCE: 20 / 400 (EIP-150) / 700 (EIP-1884) / cold 2600, warm 100 (EIP-2929) of the answer's cold flag -/
+theorem step_balance_agrees (f : Fork) (s : IState) (hcode : s.code[s.pc]? = some 0x31) (hwf : WFM s)
+    (hf : s.spec = f.id) : step s = balanceRule f s := Proofs.EvmStep2.step_balance f s hcode hwf hf
+
+/-- a state satisfying the hypotheses (London): `PUSH1 0 BALANCE` at the BALANCE -/
+example : ∃ s : IState, WFM s ∧ s.code[s.pc]? = some 0x31 ∧ s.spec = Fork.london.id :=
+  ⟨{ IState.init [0x60, 0, 0x31] [] 100000 false 12 0 0 0 {} with pc := 2, stack := [0] },
+   ⟨⟨by decide, by decide, by decide⟩, Proofs.Memory.new_wf, by decide, by decide, by decide, by decide, by decide,
+    by decide⟩, by decide, rfl⟩
+
+/-- SELFBALANCE (Istanbul) -/
+theorem step_selfbalance_agrees (s : IState) (hcode : s.code[s.pc]? = some 0x47) (hwf : WFM s) :
+    step s = selfbalanceRule s := Proofs.EvmStep2.step_selfbalance s hcode hwf
+
+/-- EXTCODESIZE: `Spec.GasCalc.accountAccess f 20 cold` -/
+theorem step_extcodesize_agrees (f : Fork) (s : IState) (hcode : s.code[s.pc]? = some 0x3b) (hwf : WFM s)
+    (hf : s.spec = f.id) : step s = extcodesizeRule f s := Proofs.EvmStep2.step_extcodesize f s hcode hwf hf
+
+/-- EXTCODEHASH (Constantinople): 400 / 700 / cold 2600, warm 100 -/
+theorem step_extcodehash_agrees (f : Fork) (s : IState) (hcode : s.code[s.pc]? = some 0x3f) (hwf : WFM s)
+    (hf : s.spec = f.id) : step s = extcodehashRule f s := Proofs.EvmStep2.step_extcodehash f s hcode hwf hf
+
+/-- EXTCODECOPY: `Spec.GasCalc.extcodecopyCost f len cold` + expansion, zero-padded code bytes — for every answer
+whose code is a byte slice (`≤ isize::MAX`) -/
+theorem step_extcodecopy_agrees (f : Fork) (s : IState) (hcode : s.code[s.pc]? = some 0x3c) (hwf : WFM s)
+    (hf : s.spec = f.id) :
+    AgreeOn (fun r => r.bytes.length ≤ Memory.ISIZE_MAX) (step s) (extcodecopyRule f s) :=
+  Proofs.EvmStep2.step_extcodecopy f s hcode hwf hf
+
+/-- BLOCKHASH: 20 gas; the number saturated to 64 bits is what the host is asked for -/
+theorem step_blockhash_agrees (s : IState) (hcode : s.code[s.pc]? = some 0x40) (hwf : WFM s) :
+    step s = blockhashRule s := Proofs.EvmStep2.step_blockhash s hcode hwf
+
+/-- SSTORE: `Spec.GasCalc.sstoreCost` / `sstoreRefund` of the (original, present, new) pattern and cold flag the host
+answers, the EIP-2200 sentry, static-context failure first -/
+theorem step_sstore_agrees (f : Fork) (s : IState) (hcode : s.code[s.pc]? = some 0x55) (hwf : WFM s)
+    (hf : s.spec = f.id) : step s = sstoreRule f s := Proofs.EvmStep2.step_sstore f s hcode hwf hf
+
+/-- TSTORE (Cancun): 100 gas -/
+theorem step_tstore_agrees (s : IState) (hcode : s.code[s.pc]? = some 0x5d) (hwf : WFM s) :
+    step s = tstoreRule s := Proofs.EvmStep2.step_tstore s hcode hwf
+
+/-- SELFDESTRUCT: `Spec.GasCalc.selfdestructCost` of the answer, the pre-London 24000 refund, result `SelfDestruct` -/
+theorem step_selfdestruct_agrees (f : Fork) (s : IState) (hcode : s.code[s.pc]? = some 0xff) (hwf : WFM s)
+    (hf : s.spec = f.id) : step s = selfdestructRule f s := Proofs.EvmStep2.step_selfdestruct f s hcode hwf hf
+
+/-- the continuation of a host question on an answer -/
+def afterAnswer (r : HostResp) : Outcome → Option Done
+  | .host _ k => some (k r)
+  | _ => none
+
+/-- SSTORE under London of a cold clean slot 1 → 0 (pattern X X 0): 2900 + 2100 gas, refund 4800 -/
+example : ((afterAnswer { original := 1, present := 1, new := 0, isCold := true }
+      (sstoreRule .london { IState.init [0x55] [] 10000 false 12 0xcc 0 0 {} with stack := [0, 5] })).bind
+        fun d => match d with | .next s' => some (s'.gas.remaining, s'.gas.refunded) | _ => none) =
+    some (5000, 4800) := by decide +kernel
 
 end Revm.Props.C01Rules
